@@ -11,6 +11,7 @@ KNOWN = os.path.join(VERIF, "known_findings.jsonl")
 
 
 def load_known(prop):
+    """Known (unrepaired) findings of `prop`; prop=None -> of every property."""
     out = []
     if os.path.exists(KNOWN):
         with open(KNOWN) as fh:
@@ -19,7 +20,7 @@ def load_known(prop):
                 if not line or line.startswith("#"):
                     continue
                 rec = json.loads(line)
-                if rec.get("property") == prop and rec.get("status") == "known":
+                if (prop is None or rec.get("property") == prop) and rec.get("status") == "known":
                     out.append(rec)
     return out
 
@@ -34,6 +35,7 @@ class Check:
         self.violations = []
         self.known_hits = {}
         self.known = load_known(prop)
+        self.known_all = load_known(None)
         self.cov = {"states": 0, "transitions": 0, "traces_validated_against_impl": 0, "samples": [],
                     "evaluations": 0, "distinct_nontrivial": 0, "rule": "", "exhaustive": False}
         self.assumptions = []
@@ -80,7 +82,7 @@ class Check:
         with open(os.path.join(VERIF, "evidence", self.prop + ".json"), "w") as fh:
             json.dump(ev, fh, indent=1, default=str)
         for slug, k in sorted(self.known_hits.items()):
-            print("KNOWN-FINDING: property=%s %s: %s" % (self.prop, slug, k.get("what", "")))
+            print("KNOWN-FINDING: property=%s %s: %s" % (k.get("property", self.prop), slug, k.get("what", "")))
         seen = set()
         for sig, path in self.violations:
             if path in seen:
